@@ -1,4 +1,5 @@
 import HawkModel.Fmt
+import HawkModel.FmtOut
 import HawkModel.Drv.Util
 /-! driver for the fmt area (C12). Same TAB separated lines as harness/fmt_h.c:
   S|B|C <fmthex> <cfmthex|-> <cval|-> <arg>...
@@ -138,12 +139,19 @@ def stepK (fields : List String) : String :=
     | _, _ => "skip"
   | _ => "skip"
 
-def step (_ : Unit) (line : String) : Unit × String :=
+def step1 (_ : Unit) (line : String) : Unit × String :=
   let line := (line.toList.filter fun c => c != '\n' && c != '\r')
   let fields := (String.ofList line).splitOn "\t"
   match fields with
   | mode :: fmthex :: cfmthex :: cval :: argstrs =>
     if mode == "K" then ((), stepK fields) else
+    if mode == "O" then
+      -- `O <length of the text libc renders> - -`: the fb.out protocol of fmt_outv for a text of that length
+      let q := fmthex.toNat?.getD 0
+      match outLoop (List.replicate q 'x') 63 false 0 with
+      | .oops => ((), "O=oops")
+      | .ok capa heap calls buf => ((), s!"O=ok capa={capa} heap={if heap then 1 else 0} calls={calls} len={buf.length}")
+    else
     if mode == "S" ∨ mode == "B" ∨ mode == "C" then
       match argstrs.mapM parseArg with
       | none => ((), "bad-arg")
@@ -168,7 +176,22 @@ def step (_ : Unit) (line : String) : Unit × String :=
     else ((), "skip")
   | _ => ((), "skip")
 
+/-- `Q <S|B> <flags hex> <width> <prec|-> <conv> <value>`: one integer conversion in the runtime whose scratch buffer lengths are the
+driver's state (`FmtOut.seqStep`); `Q0` starts a new runtime. -> Q=<format.tmp.len> <formatmbs.tmp.len> text=<units> calls=<size>/<len>,... -/
+def step (st : Scratch) (line : String) : Scratch × String :=
+  let fields := (String.ofList (line.toList.filter fun c => c != '\n' && c != '\r')).splitOn "\t"
+  match fields with
+  | "Q0" :: _ => ({}, "Q=4096 4096")
+  | "Q" :: m :: flh :: w :: p :: c :: v :: _ =>
+    let flags := flagsOf (unhex flh)
+    let precGiven := p != "-"
+    let prec : Int := if precGiven then parseInt p else -1
+    let r := seqStep st (m == "B") flags (w.toNat?.getD 0) precGiven prec (c.toList.headD 'd') (parseInt v)
+    let calls := ",".intercalate (r.2.2.map fun (a, b) => s!"{a}/{b}")
+    (r.1, s!"Q={r.1.wide} {r.1.byte} text={units r.2.1} calls={calls}")
+  | _ => (st, (step1 () line).2)
+
 def main : IO Unit := do
-  forLines (← IO.getStdin) Unit () step
+  forLines (← IO.getStdin) Scratch {} step
 
 end Hawk.Drv.Fmt
